@@ -15,6 +15,7 @@ import ClientGoVerif.Proofs.MvccInv
 import ClientGoVerif.Proofs.MvccLocks
 import ClientGoVerif.Proofs.Perc
 import ClientGoVerif.Proofs.MvccReach
+import ClientGoVerif.Proofs.MvccTemporal
 namespace CGV.Props.C02
 open CGV CGV.Mvcc CGV.Perc
 
@@ -43,6 +44,29 @@ theorem rollback_blocks_late_prewrite (s : Store) (r : PrewriteReq) (m : Mutatio
     the crash and whatever recovery commands ran after it, no key ends with both outcomes for one transaction -/
 theorem reachable_never_both (s : Store) (h : Reachable s) : ∀ p ∈ s.kv, NoMix p.2.writes :=
   fun p hp => (h.entries p hp).nomix
+
+/-- an applied commit is durable: the commit record of a transaction on a key is still there after ANY later command
+    sequence respecting the callers' contract — other clients' traffic, every recovery path (status check, resolve,
+    cleanup, rollback requests for this very transaction) — as long as GC / destroy-range do not run over it and no
+    command writes at its version (distinct timestamps).  With `reachable_never_both` no rollback record of the
+    transaction can appear next to it. -/
+theorem applied_commit_is_durable (w : Write) (k : Bytes) (s : Store) (cs : List Cmd) (hs : SInv s)
+    (hok : OkAll s cs) (hg : GuardAll (fun _ lab => lab.keepsRecord w) k s cs) (hw : w ∈ (getEntry s.kv k).writes) :
+    w ∈ (getEntry (runAll s cs).kv k).writes ∧ NoMix (getEntry (runAll s cs).kv k).writes :=
+  ⟨runAll_record_stays w k s cs hs hok hg hw, ((runAll_inv s cs hs hok).2 k).nomix⟩
+
+/-- one commit timestamp per key: in every reachable state a transaction has at most one record on a key -/
+theorem one_record_per_txn_per_key (s : Store) (h : Reachable s) (k : Bytes) :
+    ∀ w1 ∈ (getEntry s.kv k).writes, ∀ w2 ∈ (getEntry s.kv k).writes, w1.startTS = w2.startTS → w1 = w2 :=
+  h.uniq k
+
+/-- the outcome on a key is final: whatever command runs next, if the transaction already has a record on the key
+    (commit record or rollback marker), the step the key takes is not a commit, rollback, marker or lock step of it -/
+theorem outcome_on_key_is_final (s : Store) (c : Cmd) (hs : SInv s) (hok : c.Ok s) (k : Bytes) (T : Nat)
+    (hrec : ∃ w ∈ (getEntry s.kv k).writes, w.startTS = T) :
+    ∃ lab, c.labels k lab ∧ KStep (getEntry s.kv k) lab (getEntry (c.run s).kv k) ∧ lab.txn ≠ some T := by
+  obtain ⟨lab, hlab, hst⟩ := (run_refines s c hs hok).2 k
+  exact ⟨lab, hlab, hst, hst.final (hs.2 k) hrec⟩
 
 /-- recovery by resolve removes the lock it resolves (commit or rollback alike) -/
 theorem resolve_kernel_removes_lock (e : Entry) (l : Lock) (k : Bytes) (T C : Nat) :
